@@ -6,7 +6,11 @@ package dhcpv4
 // methods and of option constructors come from zz_verif_generated.go, produced by gosym from the
 // package's types on every run.
 
-import "github.com/insomniacslk/dhcp/iana"
+import (
+	"net"
+
+	"github.com/insomniacslk/dhcp/iana"
+)
 
 // verifC20CheckOption: a standalone option value built by an exported constructor encodes the same
 // before and after being printed / read, and repeated reads agree.
@@ -155,5 +159,47 @@ func VerifC20Fields(hwlen int) {
 	verifAssert(verifSame(p.ClientIPAddr, ci0) && verifSame(p.YourIPAddr, yi0), "reader-leaves-the-packets-fields-unchanged")
 	verifAssert(verifSameStr(p.ServerHostName, sn0) && verifSameStr(p.BootFileName, fn0), "reader-leaves-the-packets-fields-unchanged")
 	verifAssert(verifSame(p.ToBytes(), b0), "reader-leaves-encoding-unchanged")
+	verifReach("end")
+}
+
+// VerifC20Routes: a classless static route whose destination has a prefix of `ones` bits and
+// symbolic address bytes (also bits beyond the prefix; form16 != 0: the address in its 16-byte
+// form) is made into an option and put into a packet: printing the option, encoding it, encoding
+// and printing the packet leave the caller's Route exactly as it was, and every encoding equals
+// the first one.
+func VerifC20Routes(ones, form16 int) {
+	dst := verifBytes("dst", 4)
+	ip := net.IP(dst)
+	if form16 != 0 {
+		ip = make(net.IP, 16)
+		ip[10], ip[11] = 0xff, 0xff
+		copy(ip[12:], dst)
+	}
+	r := &Route{Dest: &net.IPNet{IP: ip, Mask: net.CIDRMask(ones, 32)}, Router: net.IP(verifBytes("gw", 4))}
+	ip0 := append([]byte(nil), r.Dest.IP...)
+	mask0 := append([]byte(nil), r.Dest.Mask...)
+	gw0 := append([]byte(nil), r.Router...)
+	same := func() {
+		verifAssert(verifSame(r.Dest.IP, ip0), "reading-or-encoding-leaves-the-callers-route-unchanged")
+		verifAssert(verifSame(r.Dest.Mask, mask0), "reading-or-encoding-leaves-the-callers-route-unchanged")
+		verifAssert(verifSame(r.Router, gw0), "reading-or-encoding-leaves-the-callers-route-unchanged")
+	}
+	o := OptClasslessStaticRoute(r)
+	same()
+	_ = o.String()
+	same()
+	b0 := append([]byte(nil), o.Value.ToBytes()...)
+	same()
+	_ = r.String()
+	p := &DHCPv4{OpCode: OpcodeBootReply, HWType: iana.HWTypeEthernet, Options: Options{}}
+	p.UpdateOption(o)
+	same()
+	e0 := append([]byte(nil), p.ToBytes()...)
+	same()
+	_ = p.Summary()
+	_ = p.ClasslessStaticRoute()
+	same()
+	verifAssert(verifSame(o.Value.ToBytes(), b0), "repeated-reads-agree")
+	verifAssert(verifSame(p.ToBytes(), e0), "packet-encoding-unchanged-after-printing")
 	verifReach("end")
 }
